@@ -214,7 +214,7 @@ PROPS = {
         "assumptions": ["doc/doc.md keeps its '### Inbuilt Aliases' code blocks", "a helper that tests both members of a pair satisfies SYN-1 by itself"],
     },
     "C03": {
-        "rules": [("ENV-1", env.env1), ("ENV-2", env.env2), ("ENV-3", env.env3), ("FLW-12", flw.flw12), ("PAN-5", pan.pan5), ("FLW-13", r5.flw13), ("ENV-5", r5.env5), ("ENV-6", r5.env6), ("ENV-7", r5.env7), ("ENV-8", r5.env8), ("ENV-9", r5.env9), ("FLW-16", r5.flw16), ("PUR-8", r5.pur8), ("POL-2", r5.pol2), ("ENV-10", r5.env10)],
+        "rules": [("ENV-1", env.env1), ("ENV-2", env.env2), ("ENV-3", env.env3), ("FLW-12", flw.flw12), ("PAN-5", pan.pan5), ("FLW-13", r5.flw13), ("ENV-5", r5.env5), ("ENV-6", r5.env6), ("ENV-7", r5.env7), ("ENV-8", r5.env8), ("ENV-9", r5.env9), ("FLW-16", r5.flw16), ("PUR-8", r5.pur8), ("POL-2", r5.pol2), ("ENV-10", r5.env10), ("FLW-17", r5.flw17)],
         "explanation": "Decides the plumbing clauses of C03 ('whose left neighbours match the context and do not match the exception', 'scanning left to right'), not the rewrite semantics. "
                        "ENV-1: in SubRule::match_contexts_and_exceptions, for contexts and for exceptions alike, the before-half is a reversed copy of the pair's first element, matched by "
                        "match_before_env on `word.reverse()` at `start_pos.reversed(word)`; the after-half is the pair's second element, matched by match_after_env on the word at end_pos; "
